@@ -150,7 +150,7 @@ func genTSSCase(rt *rapid.T, p tssProfile) tssCase {
 		case 3:
 			v := "good"
 			if p.corrupt {
-				v = gen.OneOf(rt, "sigv", "good", "good", "badz", "badr", "otherz", "wrongid", "wrongsigner", "othermsg", "flip", "shift", "nonassigned", "dup")
+				v = gen.OneOf(rt, "sigv", "good", "good", "badz", "badr", "otherz", "wrongid", "wrongsigner", "othermsg", "flip", "shift", "mirror", "mirror", "nonassigned", "dup")
 			}
 			c.Ops = append(c.Ops, tssOp{K: "sig", S: gen.Uniform(rt, "s", 8), M: gen.Uniform(rt, "m", 8), Variant: v})
 		case 4:
@@ -506,6 +506,24 @@ func (w *tssWorld) buildSig(sid uint64, mi int, variant string, inBlock map[stri
 			if s2, e3 := tss.NewSignatureFromComponents(rp, zs); e3 == nil {
 				sig = s2
 				bt.expectOK, bt.why = false, "shifted nonce (R+dG, z+d)"
+			}
+		}
+	case "mirror":
+		// the assigned public nonce with the mirrored scalar z' = c*lambda*d - k = z - 2k: the share equation then
+		// yields -R (same x coordinate, opposite y), which a verifier comparing only x would accept
+		if am, okm := tsstypes.AssignedMembers(sa.AssignedMembers).FindAssignedMember(mem.ID); okm {
+			if de, okd := w.wallet.Lookup(tsstypes.DE{PubD: am.PubD, PubE: am.PubE}); okd {
+				if k, e1 := tss.ComputeOwnPrivNonce(de.PrivD, de.PrivE, am.BindingFactor); e1 == nil {
+					z := new(big.Int).SetBytes(sig.S())
+					kk := new(big.Int).SetBytes(k)
+					z.Sub(z, kk).Sub(z, kk).Mod(z, n)
+					if zs, e2 := tss.NewScalar(leftPad(z.Bytes(), 32)); e2 == nil {
+						if s2, e3 := tss.NewSignatureFromComponents(sig.R(), zs); e3 == nil {
+							sig = s2
+							bt.expectOK, bt.why = false, "mirrored scalar (share equation gives -R)"
+						}
+					}
+				}
 			}
 		}
 	case "flip":
